@@ -3,7 +3,8 @@
 //      (labels map<int>, dic, hashmap<int>, hashdic, set, map9),
 //  (2) flat exhaustive families for the entry points that are not BFS operations:
 //      build (constructors / initializer lists / shorthand initialisers), sizes (table-size arguments),
-//      grow (every insertion order of 8-9 colliding keys through two table growths).
+//      grow (every insertion order of 8-9 colliding keys through two table growths),
+//      alias (every call whose key / value argument is a reference into the container that the call modifies).
 #include <asl/Map.h>
 #include <asl/HashMap.h>
 #include <asl/Set.h>
@@ -52,9 +53,10 @@ template <> struct VT<int> {
 	static int num(int v) { return v; }
 };
 template <> struct VT<String> {
-	enum { N = 12 };
+	enum { N = 32, NPLAIN = 12 }; // 1..11: plain values; 16..: the strings of the alias family, which serve as keys and as values
 	static String* tab() { static String t[N]; return t; }
-	static void init() { for (int i = 1; i < N; i++) tab()[i] = String(fmt("value-%02d-0123456789-0123456789-x", i).c_str()); } // heap-represented
+	static void init() { for (int i = 1; i < NPLAIN; i++) tab()[i] = String(fmt("value-%02d-0123456789-0123456789-x", i).c_str()); } // heap-represented
+	static int reg(int slot, const String& s) { tab()[slot] = s; return num(s); } // number under which the string s is known as a value
 	static const String& val(int n) { return tab()[n]; }
 	static int num(const String& v) { for (int i = 0; i < N; i++) if (v == tab()[i]) return i; return 99; }
 };
@@ -167,14 +169,14 @@ static bool checkSet(const Set<int>& I, const std::set<int>& M, const int* keys,
 // C is the container class under test: Map<K,V> or Dic<V>
 template <class K, class V, class C>
 struct MapSys {
-	enum Kind { SET, INDEX_ASSIGN, INDEX_READ, REMOVE, CLEAR, CLONE_TO, ADD_FROM, NEWEMPTY, REMOVE_ALIAS };
-	struct O { Kind k; int m, key, v; };
+	enum Kind { SET, INDEX_ASSIGN, INDEX_READ, REMOVE, CLEAR, CLONE_TO, ADD_FROM, NEWEMPTY, REMOVE_ALIAS, SET_VALUE_ALIAS };
+	struct O { Kind k; int m, key, v; }; // SET_VALUE_ALIAS: v = number of the key whose stored value is passed (by reference) as the value argument
 	std::vector<O> ops;
 	C* im[2];
 	Ref* mm[2];
 	KeyList<K> keys;
 	bool big; // one map, many keys, set/remove only (sizes above 5)
-	int W_BRANCH[5], W_AUTOINSERT, W_OVERWRITE, W_ALIAS, W_ASSIGN_OVER, W_BIG6, W_LOOP3;
+	int W_BRANCH[5], W_AUTOINSERT, W_OVERWRITE, W_ALIAS, W_ASSIGN_OVER, W_BIG6, W_LOOP3, W_VA_BEFORE, W_VA_AFTER, W_VA_REALLOC, W_VA_OVERWRITE;
 	// the first 46 op numbers are those of the original alphabet, so that older case strings keep their meaning
 	MapSys(const std::string& label, const KeyList<K>& kl, bool big_ = false) : keys(kl), big(big_) {
 		im[0] = im[1] = 0; mm[0] = mm[1] = 0;
@@ -184,11 +186,19 @@ struct MapSys {
 				add(CLEAR, m); add(CLONE_TO, m); add(ADD_FROM, m);
 			}
 			for (int m = 0; m < 2; m++) for (int k = 0; k < keys.n(); k++) add(REMOVE_ALIAS, m, k);
-		} else for (int k = 0; k < keys.n(); k++) { add(SET, 0, k, 2); add(REMOVE, 0, k); add(REMOVE_ALIAS, 0, k); }
+			for (int m = 0; m < 2; m++) for (int k = 0; k < keys.n(); k++) for (int src = 0; src < keys.n(); src++) add(SET_VALUE_ALIAS, m, k, src);
+		} else {
+			for (int k = 0; k < keys.n(); k++) { add(SET, 0, k, 2); add(REMOVE, 0, k); add(REMOVE_ALIAS, 0, k); }
+			for (int k = 0; k < keys.n(); k++) for (int src = 0; src < keys.n(); src++) add(SET_VALUE_ALIAS, 0, k, src);
+		}
 		static const char* bn[] = { "lookup_in_empty", "lookup_found", "lookup_below_first", "lookup_above_last", "lookup_between" };
 		for (int i = 0; i < 5; i++) W_BRANCH[i] = vf::counter(("w." + label + "." + bn[i]).c_str());
 		W_OVERWRITE = vf::counter(("w." + label + ".overwrite_existing_key").c_str());
 		W_ALIAS = vf::counter(("w." + label + ".remove_key_aliasing_own_entry").c_str());
+		W_VA_BEFORE = vf::counter(("w." + label + ".set_value_aliasing_own_entry_inserts_before_source").c_str());
+		W_VA_AFTER = vf::counter(("w." + label + ".set_value_aliasing_own_entry_inserts_after_source").c_str());
+		W_VA_REALLOC = vf::counter(("w." + label + ".set_value_aliasing_own_entry_inserts_at_full_capacity").c_str());
+		W_VA_OVERWRITE = vf::counter(("w." + label + ".set_value_aliasing_own_entry_overwrites").c_str());
 		W_AUTOINSERT = W_ASSIGN_OVER = W_BIG6 = W_LOOP3 = -1;
 		if (!big) { W_AUTOINSERT = vf::counter(("w." + label + ".index_read_auto_inserts").c_str()); W_ASSIGN_OVER = vf::counter(("w." + label + ".clone_assigned_over_nonempty").c_str()); }
 		else { W_BIG6 = vf::counter(("w." + label + ".lookup_in_6_or_more").c_str()); W_LOOP3 = vf::counter(("w." + label + ".insert_in_middle_at_full_capacity").c_str()); }
@@ -201,12 +211,14 @@ struct MapSys {
 		if (o.k == CLEAR) return !mm[o.m]->empty();
 		if (o.k == ADD_FROM) return !mm[1 - o.m]->empty();
 		if (o.k == REMOVE_ALIAS) return mm[o.m]->count(keys.s[o.key]) != 0;
+		if (o.k == SET_VALUE_ALIAS) return mm[o.m]->count(keys.s[o.v]) != 0;
 		return true;
 	}
 	const char* predict(int) { return 0; }
 	std::string opname(int op) {
 		const O& o = ops[op];
 		switch (o.k) {
+		case SET_VALUE_ALIAS: return fmt("m%d.set(%s, <the value stored inside m%d under %s>)", o.m, keys.s[o.key].c_str(), o.m, keys.s[o.v].c_str());
 		case SET: return fmt("m%d.set(%s, %d)", o.m, keys.s[o.key].c_str(), o.v);
 		case INDEX_ASSIGN: return fmt("m%d[%s] = %d", o.m, keys.s[o.key].c_str(), o.v);
 		case INDEX_READ: return fmt("read m%d[%s] (non-const)", o.m, keys.s[o.key].c_str());
@@ -231,8 +243,14 @@ struct MapSys {
 	bool apply(int op, std::string& err) {
 		const O& o = ops[op];
 		C& I = *im[o.m]; Ref& M = *mm[o.m];
-		if (o.k <= REMOVE || o.k == REMOVE_ALIAS) classify(o.m, o.key);
+		if (o.k <= REMOVE || o.k == REMOVE_ALIAS || o.k == SET_VALUE_ALIAS) classify(o.m, o.key);
 		switch (o.k) {
+		case SET_VALUE_ALIAS: { // the value argument is a reference to a value stored in the map that is being modified
+			int e = M[keys.s[o.v]]; // the value the argument has when set() is called
+			if (M.count(keys.s[o.key])) vf::add(W_VA_OVERWRITE);
+			else { vf::add(nativeLess(keys.k[o.key], keys.k[o.v]) ? W_VA_BEFORE : W_VA_AFTER); if (I.length() == I.kv().cap()) vf::add(W_VA_REALLOC); }
+			const C& cI = I;
+			I.set(keys.k[o.key], cI[keys.k[o.v]]); M[keys.s[o.key]] = e; break; }
 		case SET:
 			if (M.count(keys.s[o.key])) vf::add(W_OVERWRITE);
 			else if (big && I.length() >= 6 && I.length() == I.kv().cap() && where(o.m, o.key) == 4) vf::add(W_LOOP3);
@@ -570,14 +588,18 @@ struct Flat {
 	std::function<bool(const std::string& spec, std::string& err)> body;
 	std::function<std::string(const std::string& spec)> describe;
 	int c_cases, c_leak;
+	std::string sub, sigx; // set by a body that runs a group of sub-cases: the failing sub-case (itself a valid spec) and its signature
 	Flat(const std::string& l) : label(l) { c_cases = vf::counter((l + ".cases").c_str()); c_leak = vf::counter((l + ".leak_checks").c_str()); }
 	bool one(const std::string& spec, bool report = true, bool retry = false) {
 		std::string kase = label + ":" + spec, err, sig, desc; err.reserve(1024); sig.reserve(64); desc.reserve(2048);
 		vf::cur(kase); vf::asan_clear();
 		uint64_t base = vf::heap_bytes();
+		sub.clear(); sigx.clear();
 		bool ok = body(spec, err);
 		if (!ok) { sig = "diverge"; desc = err; }
 		if (vf::asan_tripped()) { sig = "asan"; desc = "ASan " + vf::asan_what() + (err.empty() ? "" : "; " + err); ok = false; }
+		if (!ok && !sigx.empty()) sig = sigx;
+		if (!ok && !sub.empty()) { std::string full = sub; kase = label + ":" + full; if (report) vf::violation(sig, desc + "  case: " + describe(full), kase); vf::add(c_cases); vf::asan_clear(); return false; }
 		if (ok && vf::have_asan()) {
 			uint64_t after = vf::heap_bytes();
 			if (after != base && !retry) return one(spec, report, true); // lazily built statics allocate once: only a delta that repeats is a leak
@@ -742,6 +764,242 @@ static std::string growDescribe(const std::string& spec) {
 	return s + (q.size() >= 8 ? " ; lookup ; clone and remove each key" : "");
 }
 
+// ---- alias: every call whose key or value argument is a reference INTO the container that the call modifies.
+// The library takes keys and values by const reference; an insertion into an ordered map shifts the entries and may move the
+// block, a hash-table growth relinks the nodes: the argument must be read (or followed) correctly all the same, and the result
+// must be the finite map obtained with a copy of the argument taken before the call.
+// kind: 0 Map<int,int>  1 Dic<String>  2 HashMap<int,int>  3 HashDic<String>  4 Set<int>
+// Every element of the universe U serves as key and as value: the entry with key U[i] is created with the value U[(i+1) % n].
+// spec = kind/variant/seq           : the state built by inserting the keys seq (distinct, every order), then EVERY applicable (op, a, b)
+//        kind/variant/seq/op/a/b    : one of them
+//   a = key argument: 0..n-1 an external copy of U[a]; n..2n-1 the key U[a-n] stored in the container (by reference);
+//       2n..3n-1 the VALUE stored under U[a-2n] (by reference; it names the key U[(a-2n+1) % n])
+//   b = value argument of set()/operator(): 0 an external value; 1..n the value stored under U[b-1] (by reference);
+//       n+1..2n the KEY U[b-n-1] stored in the container (by reference)
+static KeyList<int> AU_MI, AU_HI, AU_SI; static KeyList<String> AU_DS, AU_HS;
+static const char* AKIND[] = { "Map<int,int>", "Dic<String>", "HashMap<int,int>", "HashDic<String>", "Set<int>" };
+enum AOp { A_SET, A_CALL, A_INDEX_ASSIGN, A_INDEX_READ, A_REMOVE, A_SELF_ADD, A_SELF_ASSIGN, A_SELF_CLONE, A_SELF_UNION, A_SELF_INTER, A_SELF_DIFF, A_INITLIST_OWN, A_NOPS };
+static const char* AOPN[] = { "c.set(K, V)", "c(K, V)", "c[K] = external value", "read c[K] (non-const)", "c.remove(K)", "c.add(c) / s << s", "c = c", "c = c.clone()", "s = s + s", "s = s & s", "s = s - s", "d = { {K, V} } (initializer list of references)" };
+static int W_A_SUB[5], W_A_VREF_BEFORE, W_A_VREF_AFTER, W_A_VREF_FULL, W_A_VREF_OVER, W_A_VREF_OWN, W_A_VKEY, W_A_KVAL_INS, W_A_KVAL_OVER, W_A_KKEY, W_A_HGROW, W_A_HGROW_FILL, W_A_SELF, W_A_INITLIST, W_A_SET_REGROW;
+struct Flat; static Flat* FA;
+static void aliasFail(const std::string& subspec, const char* sig);
+
+static int numOf(int v) { return v; }
+static int numOf(const String& v) { return VT<String>::num(v); }
+template <class K, class C> static const K* storedKey(C& I, const K& k) { int g = 0; for (typename C::Enumerator e = I.all(); e && g < 400; ++e, ++g) if (sameKey(~e, k)) return &~e; return 0; }
+
+// d = { {key, <reference to a value of d>}, ... }: only Dic has an initializer list of references
+template <class C, class KL> static bool initlistOwn(C&, Ref&, const KL&, int, int, std::string&) { return true; }
+static bool initlistOwn(Dic<String>& d, Ref& M, const KeyList<String>& U, int a, int b, std::string&) {
+	typedef Dic<String>::KV E;
+	int n = U.n();
+	std::vector<E> e; Ref R;
+	if (a < n) { E x = { *U.k[a], *d.find(U.k[b - 1]) }; e.push_back(x); R[U.s[a]] = M[U.s[b - 1]]; } // one pair: the value of another (or the same) entry under the key U[a]
+	else for (int i = 0; i < n; i++) { String* p = d.find(U.k[i]); if (p) { E x = { *U.k[i], *p }; e.push_back(x); R[U.s[i]] = M[U.s[i]]; } } // the whole dictionary assigned to itself, pair by pair
+	switch (e.size()) {
+	case 1: { std::initializer_list<E> il = { e[0] }; d = il; break; } case 2: { std::initializer_list<E> il = { e[0], e[1] }; d = il; break; } case 3: { std::initializer_list<E> il = { e[0], e[1], e[2] }; d = il; break; }
+	case 4: { std::initializer_list<E> il = { e[0], e[1], e[2], e[3] }; d = il; break; } default: { std::initializer_list<E> il = { e[0], e[1], e[2], e[3], e[4] }; d = il; break; }
+	}
+	M = R;
+	return true;
+}
+
+template <class K, class V, class C> struct AOrdered {
+	enum { ORDERED = 1, NVAR = 2 };
+	static C* make(int v) { C* c = new C(); if (v == 1) c->reserve(16); return c; }
+	static void finish(C&, Ref&, int, int) {}
+	static bool check(C& I, const Ref& M, const KeyList<K>& U, const char* nm, std::string& err) { return checkMap<K, V, C>(I, M, U, nm, err); }
+	static bool remove(C& I, const K& k, bool expect, std::string& err) { bool r = I.remove(k); if (r != expect) { err = "remove() return value"; return false; } return true; }
+	static void call(C& I, const K& k, const V& v) { I(k, v); }
+	static void selfAdd(C& I) { C& r = I; I.add(r); }
+	static int shape(C& I) { return I.kv().cap(); }
+	static bool full(C& I) { return I.length() == I.kv().cap(); }
+};
+template <class K, class V, class C> struct AHashed {
+	enum { ORDERED = 0, NVAR = 5 };
+	static C* make(int v) { return v < 3 ? new C(1 << v) : new C(); }
+	static void finish(C& I, Ref& M, int v, int have) { if (v == 4) for (int i = 0; i < 225 - have; i++) { I[KT<K>::fillkey(i)] = VT<V>::val(1); M[ks(KT<K>::fillkey(i))] = 1; } } // the next non-const lookup regrows the table
+	static bool check(C& I, const Ref& M, const KeyList<K>& U, const char* nm, std::string& err) { return checkHash<K, V, C>(I, M, U, nm, err); }
+	static bool remove(C& I, const K& k, bool, std::string&) { I.remove(k); return true; }
+	static void call(C&, const K&, const V&) {}
+	static void selfAdd(C&) {}
+	static int shape(C& I) { return I.a.length(); }
+	static bool full(C& I) { return I.length() >= I.a.length() * 7 / 8; }
+};
+static const char* avariant(int kind, int v) {
+	static const char* o[] = { "default capacity (3, doubling)", "reserve(16) first (no reallocation)" };
+	static const char* h[] = { "table of 1 bin", "table of 2 bins", "table of 4 bins", "default table (256 bins)", "default table filled to 225 entries (the next non-const lookup regrows it)" };
+	return kind < 2 ? o[v & 1] : h[v % 5];
+}
+
+// one sub-case; applicable = false (and true returned) when the sources named by a/b do not exist in this state or the op does not take them
+template <class K, class V, class C, class X>
+static bool aliasSub(int kind, int variant, const std::vector<int>& q, int op, int a, int b, const KeyList<K>& U, bool& applicable, std::string& err) {
+	int n = U.n(), len = (int)q.size();
+	applicable = false;
+	bool present[8] = { false, false, false, false, false, false, false, false };
+	for (int j = 0; j < len; j++) present[q[j]] = true;
+	int ki = -1;
+	if (op <= A_REMOVE) {
+		if (a < 0 || a >= 3 * n) return true;
+		if (a < n) ki = a; else if (a < 2 * n) { if (!present[a - n]) return true; ki = a - n; } else { if (!present[a - 2 * n]) return true; ki = (a - 2 * n + 1) % n; }
+		if (op == A_SET || op == A_CALL) { if (b < 0 || b > 2 * n || (b > 0 && !present[(b - 1) % n])) return true; } else if (b != 0) return true;
+		if (op == A_CALL && !X::ORDERED) return true;
+	}
+	else if (op == A_INITLIST_OWN) { if (kind != 1 || a < 0 || a > n || (a < n ? (b < 1 || b > n || !present[b - 1]) : (b != 0 || len == 0))) return true; }
+	else { if (a != 0 || b != 0 || op >= A_SELF_UNION || (op == A_SELF_ADD && !X::ORDERED)) return true; }
+	applicable = true;
+	vf::add(W_A_SUB[kind]);
+
+	C* holder = X::make(variant); C& I = *holder; Ref M;
+	struct Del { C* p; ~Del() { delete p; } } del = { holder };
+	for (int j = 0; j < len; j++) { int i = q[j]; V v = U.k[(i + 1) % n]; I[U.k[i]] = v; M[U.s[i]] = numOf(U.k[(i + 1) % n]); }
+	X::finish(I, M, variant, len);
+
+	K kext = K(); V vext = VT<V>::val(7);
+	const K* kp = 0; const V* vp = 0; int vnum = 7;
+	if (op <= A_REMOVE) {
+		if (a < n) { kext = U.k[a]; kp = &kext; } else if (a < 2 * n) kp = storedKey<K, C>(I, U.k[a - n]); else kp = I.find(U.k[a - 2 * n]); // K and V are the same type
+		if (!kp) { err = "harness: the source of the key argument was not found"; return false; }
+	}
+	if (op == A_SET || op == A_CALL) {
+		if (b == 0) vp = &vext; else if (b <= n) { vp = I.find(U.k[b - 1]); vnum = M[U.s[b - 1]]; } else { vp = storedKey<K, C>(I, U.k[b - n - 1]); vnum = numOf(U.k[b - n - 1]); }
+		if (!vp) { err = "harness: the source of the value argument was not found"; return false; }
+	}
+	bool aliased = a >= n || b > 0, absent = ki >= 0 && !present[ki], full = X::full(I);
+	int shape0 = X::shape(I);
+	if (op == A_SET || op == A_CALL) {
+		if (b >= 1 && b <= n) {
+			if (!absent) { vf::add(W_A_VREF_OVER); if (b - 1 == ki) vf::add(W_A_VREF_OWN); }
+			else if (X::ORDERED) { vf::add(nativeLess(U.k[ki], U.k[b - 1]) ? W_A_VREF_BEFORE : W_A_VREF_AFTER); if (full) vf::add(W_A_VREF_FULL); }
+		}
+		if (b > n) vf::add(W_A_VKEY);
+	}
+	if (op <= A_REMOVE && a >= 2 * n) vf::add(absent && op != A_REMOVE ? W_A_KVAL_INS : W_A_KVAL_OVER);
+	if (op <= A_REMOVE && a >= n && a < 2 * n) vf::add(W_A_KKEY);
+
+	switch (op) {
+	case A_SET: I.set(*kp, *vp); M[U.s[ki]] = vnum; break;
+	case A_CALL: X::call(I, *kp, *vp); M[U.s[ki]] = vnum; break;
+	case A_INDEX_ASSIGN: I[*kp] = vext; M[U.s[ki]] = 7; break;
+	case A_INDEX_READ: { int e = M[U.s[ki]]; int r = numOf(I[*kp]); if (r != e) { err = fmt("c[K] = value #%d, reference #%d", r, e); return false; } break; }
+	case A_REMOVE: { bool e = M.erase(U.s[ki]) != 0; if (!X::remove(I, *kp, e, err)) return false; break; }
+	case A_SELF_ADD: vf::add(W_A_SELF); X::selfAdd(I); break;
+	case A_SELF_ASSIGN: { vf::add(W_A_SELF); C& r = I; I = r; break; }
+	case A_SELF_CLONE: vf::add(W_A_SELF); I = I.clone(); break;
+	case A_INITLIST_OWN: vf::add(W_A_INITLIST); initlistOwn(I, M, U, a, b, err); break;
+	default: break;
+	}
+	if (!X::ORDERED && aliased && X::shape(I) != shape0) vf::add(variant == 4 ? W_A_HGROW_FILL : W_A_HGROW);
+	return X::check(I, M, U, "c", err);
+}
+
+static bool aliasSubSet(int variant, const std::vector<int>& q, int op, int a, int b, bool& applicable, std::string& err) {
+	const KeyList<int>& U = AU_SI;
+	int n = U.n(), len = (int)q.size();
+	applicable = false;
+	bool present[8] = { false, false, false, false, false, false, false, false };
+	for (int j = 0; j < len; j++) present[q[j]] = true;
+	if (b != 0) return true;
+	if (op == A_SET || op == A_REMOVE) { if (a < 0 || a >= 2 * n || (a >= n && !present[a - n])) return true; }
+	else if (op == A_SELF_ADD || (op >= A_SELF_ASSIGN && op <= A_SELF_DIFF)) { if (a != 0) return true; }
+	else return true;
+	applicable = true;
+	vf::add(W_A_SUB[4]);
+	Set<int>* holder = variant < 3 ? new Set<int>(1 << variant) : new Set<int>();
+	struct Del { Set<int>* p; ~Del() { delete p; } } del = { holder };
+	Set<int>& s = *holder; std::set<int> M;
+	for (int j = 0; j < len; j++) { s << U.k[q[j]]; M.insert(U.k[q[j]]); }
+	if (variant == 4) for (int i = 0; i < 225 - len; i++) { s << 1000 + i; M.insert(1000 + i); }
+	int shape0 = s.a.length();
+	int ext = a < n ? U.k[a] : 0; int* mp = &ext;
+	if ((op == A_SET || op == A_REMOVE) && a >= n) { mp = 0; int g = 0; for (Set<int>::Enumerator e = s.all(); e && g < 400; ++e, ++g) if (*e == U.k[a - n]) { mp = &*e; break; } if (!mp) { err = "harness: member not reached by enumeration"; return false; } vf::add(W_A_KKEY); }
+	Set<int>& r = s;
+	switch (op) {
+	case A_SET: M.insert(*mp); s << *mp; break; // s << <member stored in s>: nothing to insert, but the lookup may regrow the table
+	case A_REMOVE: M.erase(*mp); s >> *mp; break;
+	case A_SELF_ADD: vf::add(W_A_SELF); s << r; break;
+	case A_SELF_ASSIGN: vf::add(W_A_SELF); s = r; break;
+	case A_SELF_CLONE: vf::add(W_A_SELF); (HashMap<int, int>&)s = s.clone(); break;
+	case A_SELF_UNION: vf::add(W_A_SELF); s = s + r; break;
+	case A_SELF_INTER: vf::add(W_A_SELF); s = s & r; break;
+	case A_SELF_DIFF: vf::add(W_A_SELF); s = s - r; M.clear(); break;
+	default: break;
+	}
+	if (op == A_SET && a >= n && s.a.length() != shape0) vf::add(W_A_SET_REGROW);
+	if (!s.contains(r) || s.containsAny(r) != !M.empty() || !(s == r) || s != r) { err = "s.contains(s) / s.containsAny(s) / s == s"; return false; }
+	std::vector<int> probe; for (int i = 0; i < n; i++) probe.push_back(U.k[i]);
+	return checkSet(s, M, &probe[0], n, "s", err);
+}
+
+static bool aliasOne(int kind, int variant, const std::vector<int>& q, int op, int a, int b, bool& applicable, std::string& err) {
+	switch (kind) {
+	case 0: return aliasSub<int, int, Map<int, int>, AOrdered<int, int, Map<int, int> > >(kind, variant, q, op, a, b, AU_MI, applicable, err);
+	case 1: return aliasSub<String, String, Dic<String>, AOrdered<String, String, Dic<String> > >(kind, variant, q, op, a, b, AU_DS, applicable, err);
+	case 2: return aliasSub<int, int, HashMap<int, int>, AHashed<int, int, HashMap<int, int> > >(kind, variant, q, op, a, b, AU_HI, applicable, err);
+	case 3: return aliasSub<String, String, HashDic<String>, AHashed<String, String, HashDic<String> > >(kind, variant, q, op, a, b, AU_HS, applicable, err);
+	default: return aliasSubSet(variant, q, op, a, b, applicable, err);
+	}
+}
+static std::vector<std::string> splitSlash(const std::string& s) { std::vector<std::string> r; size_t i = 0; for (;;) { size_t j = s.find('/', i); if (j == std::string::npos) { r.push_back(s.substr(i)); break; } r.push_back(s.substr(i, j - i)); i = j + 1; } return r; }
+static int aliasN(int kind) { return kind == 0 ? AU_MI.n() : kind == 1 ? AU_DS.n() : kind == 2 ? AU_HI.n() : kind == 3 ? AU_HS.n() : AU_SI.n(); }
+static bool aliasCase(const std::string& spec, std::string& err) {
+	std::vector<std::string> f = splitSlash(spec);
+	if (f.size() != 3 && f.size() != 6) { err = "bad case"; return false; }
+	int kind = atoi(f[0].c_str()), variant = atoi(f[1].c_str());
+	std::vector<int> q = parseSeq(f[2]);
+	if (kind < 0 || kind > 4 || variant < 0 || variant >= (kind < 2 ? 2 : 5) || q.size() > 5) { err = "bad case"; return false; }
+	int n = aliasN(kind);
+	for (size_t i = 0; i < q.size(); i++) { if (q[i] < 0 || q[i] >= n) { err = "bad case"; return false; } for (size_t j = 0; j < i; j++) if (q[j] == q[i]) { err = "bad case"; return false; } }
+	bool applicable;
+	if (f.size() == 6) {
+		int op = atoi(f[3].c_str()), a = atoi(f[4].c_str()), b = atoi(f[5].c_str());
+		if (op < 0 || op >= A_NOPS) { err = "bad case"; return false; }
+		bool ok = aliasOne(kind, variant, q, op, a, b, applicable, err);
+		if (ok && !applicable) { err = "bad case: this (op, a, b) does not apply to this state"; return false; }
+		if (!ok || vf::asan_tripped()) aliasFail(spec, op == A_INITLIST_OWN ? "dic_assign_initlist_own_values" : "");
+		return ok;
+	}
+	for (int op = 0; op < A_NOPS; op++) for (int a = 0; a <= 3 * n; a++) for (int b = 0; b <= 2 * n; b++) {
+		if (op > A_REMOVE && op != A_INITLIST_OWN && (a || b)) continue;
+		bool ok = aliasOne(kind, variant, q, op, a, b, applicable, err);
+		if (!ok || vf::asan_tripped()) { aliasFail(spec + fmt("/%d/%d/%d", op, a, b), op == A_INITLIST_OWN ? "dic_assign_initlist_own_values" : ""); return false; }
+	}
+	return true;
+}
+static std::string aliasArgK(const std::string& name, int a, int n, const std::vector<std::string>& us) {
+	if (a < n) return us[a];
+	if (a < 2 * n) return "<the key " + us[a - n] + " stored inside " + name + ">";
+	return "<the value stored inside " + name + " under " + us[a - 2 * n] + " (it equals " + us[(a - 2 * n + 1) % n] + ")>";
+}
+static std::string aliasDescribe(const std::string& spec) {
+	std::vector<std::string> f = splitSlash(spec);
+	if (f.size() < 3) return "?";
+	int kind = atoi(f[0].c_str()), variant = atoi(f[1].c_str());
+	if (kind < 0 || kind > 4) return "?";
+	std::vector<int> q = parseSeq(f[2]);
+	int n = aliasN(kind);
+	std::vector<std::string> us; for (int i = 0; i < n; i++) { std::string x = kind == 0 ? AU_MI.s[i] : kind == 1 ? AU_DS.s[i] : kind == 2 ? AU_HI.s[i] : kind == 3 ? AU_HS.s[i] : AU_SI.s[i]; us.push_back(kind == 1 || kind == 3 ? "\"" + x + "\"" : x); }
+	std::string s = std::string(AKIND[kind]) + " c, " + avariant(kind, variant) + "; ";
+	for (size_t i = 0; i < q.size(); i++) { if (q[i] < 0 || q[i] >= n) return "?"; s += kind == 4 ? "c << " + us[q[i]] + "; " : "c[" + us[q[i]] + "] = " + us[(q[i] + 1) % n] + "; "; }
+	if (f.size() < 6) return s + "then every call with an argument that refers into c";
+	int op = atoi(f[3].c_str()), a = atoi(f[4].c_str()), b = atoi(f[5].c_str());
+	if (op < 0 || op >= A_NOPS || a < 0 || a > 3 * n || b < 0 || b > 2 * n) return s + "?";
+	std::string K = aliasArgK("c", a, n, us), V = b == 0 ? std::string("<external value>") : b <= n ? "<the value stored inside c under " + us[b - 1] + ">" : "<the key " + us[b - n - 1] + " stored inside c>";
+	if (kind == 4) return s + (op == A_SET ? "c << " + K : op == A_REMOVE ? "c >> " + K : std::string(AOPN[op]) + " with s = c");
+	switch (op) {
+	case A_SET: return s + "c.set(" + K + ", " + V + ")";
+	case A_CALL: return s + "c(" + K + ", " + V + ")";
+	case A_INDEX_ASSIGN: return s + "c[" + K + "] = <external value>";
+	case A_INDEX_READ: return s + "read c[" + K + "] (non-const)";
+	case A_REMOVE: return s + "c.remove(" + K + ")";
+	case A_INITLIST_OWN: return s + (a < n ? "c = { {" + us[a] + ", " + V + "} }  (initializer list of Dic::KV, which holds the value by reference)" : std::string("c = { {k, c[k]} for every key k of c }  (initializer list of Dic::KV, which holds the values by reference)"));
+	default: return s + AOPN[op];
+	}
+}
+
+static void aliasFail(const std::string& subspec, const char* sig) { FA->sub = subspec; FA->sigx = sig; }
+
 // =============================================================== driver
 static uint64_t totS, totT, totTr;
 template <class Sys>
@@ -778,6 +1036,11 @@ int main(int argc, char** argv) {
 	{ static const int bk[] = { INT_MAX, -1, INT_MIN, 1, 0 }; static const char* bs[] = { "\xe9t\xe9", "b", "common-prefix-0123456-b", "common-prefix-0123456", "" }; for (int i = 0; i < (T ? 5 : 4); i++) { BK_I.add(bk[i]); BK_S.add(bs[i]); } }
 	{ static const int gk[] = { 1, 9, 65, 73, -63, 17, 2, 10, 193 }; for (int i = 0; i < (T ? 9 : 8); i++) GK.add(gk[i]); }
 
+	{ // alias family: universes whose elements serve as keys and as values (0 / "" = the default-constructed value is one of them)
+		static const int mi_[] = { INT_MAX, 0, INT_MIN, 1, -1 }, hi_[] = { 1, -255, 0, 257, INT_MIN }, si_[] = { 1, -255, 3, 257, INT_MIN };
+		static const char* ds_[] = { "\xe9t\xe9", "", "common-prefix-0123456-b", "common-prefix-0123456", "common-prefix-0123456-ab" }, *hs_[] = { "Ab", "BA", "", "common-prefix-0123456-x", "\xc3" };
+		for (int i = 0; i < (T ? 5 : 4); i++) { AU_MI.add(mi_[i]); AU_HI.add(hi_[i]); AU_SI.add(si_[i]); AU_DS.add(ds_[i]); AU_HS.add(hs_[i]); VT<String>::reg(16 + i, ds_[i]); VT<String>::reg(21 + i, hs_[i]); }
+	}
 	MapSys<int, int, Map<int, int> > mi("map<int>", ki_o);
 	MapSys<String, String, Dic<String> > md("dic", ks_o);
 	MapSys<int, int, Map<int, int> > m9("map9", ki_9, true);
@@ -785,7 +1048,16 @@ int main(int argc, char** argv) {
 	HashSys<String, String, HashDic<String> > hd("hashdic", ks_h);
 	SetSys ss("set");
 
-	Flat fb("build"), fs("sizes"), fg("grow");
+	Flat fb("build"), fs("sizes"), fg("grow"), fa("alias");
+	FA = &fa; fa.body = aliasCase; fa.describe = aliasDescribe;
+	for (int k = 0; k < 5; k++) W_A_SUB[k] = vf::counter((std::string("w.alias.calls_on_") + AKIND[k]).c_str());
+	{
+		struct { int* c; const char* n; } w[] = { { &W_A_VREF_BEFORE, "ordered.value_is_own_value.new_key_sorts_before_source" }, { &W_A_VREF_AFTER, "ordered.value_is_own_value.new_key_sorts_after_source" }, { &W_A_VREF_FULL, "ordered.value_is_own_value.insert_at_full_capacity" },
+			{ &W_A_VREF_OVER, "value_is_own_value.overwrites_existing_key" }, { &W_A_VREF_OWN, "value_is_the_value_of_the_same_key" }, { &W_A_VKEY, "value_is_own_stored_key" }, { &W_A_KVAL_INS, "key_is_own_stored_value.inserts" }, { &W_A_KVAL_OVER, "key_is_own_stored_value.key_present_or_removed" },
+			{ &W_A_KKEY, "key_is_own_stored_key" }, { &W_A_HGROW, "hash.aliased_argument_while_tiny_table_regrows" }, { &W_A_HGROW_FILL, "hash.aliased_argument_while_default_table_regrows" }, { &W_A_SELF, "container_itself_as_argument" },
+			{ &W_A_INITLIST, "dic.assign_initlist_of_own_values" }, { &W_A_SET_REGROW, "set.add_own_member_while_table_regrows" } };
+		for (size_t i = 0; i < sizeof w / sizeof w[0]; i++) *w[i].c = vf::counter((std::string("w.alias.") + w[i].n).c_str());
+	}
 	fb.body = buildCase; fb.describe = buildDescribe; fs.body = sizesCase; fs.describe = sizesDescribe; fg.body = growCase; fg.describe = growDescribe;
 	W_B_UNSORTED = vf::counter("w.build.list_not_in_key_order"); W_B_DUP = vf::counter("w.build.list_with_repeated_key");
 	for (int b = 0; b < NBUILD; b++) W_B_FAMILY[b] = vf::counter((std::string("w.build.") + BUILDERS[b]).c_str());
@@ -799,6 +1071,9 @@ int main(int argc, char** argv) {
 		seqs.clear();
 		genSeqs(seqs, cur, GK.n(), GK.n(), true);
 		for (size_t i = 0; i < seqs.size(); i++) fg.cases.push_back(seqStr(seqs[i]));
+		seqs.clear();
+		genSeqs(seqs, cur, AU_MI.n(), AU_MI.n(), true);
+		for (int kind = 0; kind < 5; kind++) for (int v = 0; v < (kind < 2 ? 2 : 5); v++) for (size_t i = 0; i < seqs.size(); i++) fa.cases.push_back(fmt("%d/%d/", kind, v) + seqStr(seqs[i]));
 	}
 
 	if (vf::opt.replay) {
@@ -813,6 +1088,7 @@ int main(int argc, char** argv) {
 			else if (k.compare(0, 6, "build:") == 0) { fb.one(k.substr(6), false); fb.one(k.substr(6)); }
 			else if (k.compare(0, 6, "sizes:") == 0) { fs.one(k.substr(6), false); fs.one(k.substr(6)); }
 			else if (k.compare(0, 5, "grow:") == 0) { fg.one(k.substr(5), false); fg.one(k.substr(5)); }
+			else if (k.compare(0, 6, "alias:") == 0) { fa.one(k.substr(6), false); fa.one(k.substr(6)); }
 		});
 		return vf::finish();
 	}
@@ -824,6 +1100,13 @@ int main(int argc, char** argv) {
 	if (WANT("sizes")) runFlat(fs);
 	if (WANT("build")) runFlat(fb);
 	if (WANT("grow")) runFlat(fg);
+	if (WANT("alias")) { // one case = one state; the evaluations are the calls made on it
+		double t0 = vf::now_s();
+		runFlat(fa);
+		uint64_t calls = 0; for (int k = 0; k < 5; k++) calls += vf::get(W_A_SUB[k]);
+		totFlat += calls - vf::get(fa.c_cases);
+		vf::setinfo("alias", fmt("{\"cases\": %llu, \"calls\": %llu, \"leak_checks\": %llu, \"wall_s\": %.1f}", (unsigned long long)fa.cases.size(), (unsigned long long)calls, (unsigned long long)vf::get(fa.c_leak), vf::now_s() - t0));
+	}
 	if (WANT("map9")) runBfs(m9, "map9", 40);
 	if (WANT("map<int>")) runBfs(mi, "map<int>", T ? 6 : 5);
 	if (WANT("dic")) runBfs(md, "dic", T ? 5 : 4);
